@@ -2,7 +2,7 @@
 #include "procs.h"
 #include <string.h>
 
-#define EVBUDGET 30000
+#define EVBUDGET 8000
 
 static void procs_run(const plan *p)
 {
